@@ -1223,6 +1223,18 @@ class Interp:
 
     def ev_BinOp(self, n, env, owner):
         a, b = self.ev(n.left, env, owner), self.ev(n.right, env, owner)
+        # positions relative to the node: node.start + k, node.end - k, text.find(c) + k
+        if isinstance(n.op, (ast.Add, ast.Sub)) and isinstance(a, NumV) and isinstance(b, Const) and isinstance(b.value, int):
+            k = b.value if isinstance(n.op, ast.Add) else -b.value
+            if hasattr(a, "rel"):
+                nv = NumV(unparse(n))
+                nv.node = getattr(a, "node", None)  # type: ignore[attr-defined]
+                nv.rel = (a.rel[0], a.rel[1] + k)  # type: ignore[attr-defined]
+                return nv
+            if hasattr(a, "op") and a.op[0] == "find":
+                nv = NumV(unparse(n))
+                nv.find = (a.op[1], a.op[2], k)  # type: ignore[attr-defined]
+                return nv
         if isinstance(n.op, ast.Add):
             if isinstance(a, Operand) and isinstance(b, Seq):
                 a = self.expand(a)
@@ -1249,7 +1261,9 @@ class Interp:
                 if la is not None and lb is not None and len(la) * len(lb) <= 64:
                     s = frozenset(x + y for x in la for y in lb)
                     return Const(next(iter(s))) if len(s) == 1 else StrV(s)
-                return StrV(None, unparse(n))
+                sv = StrV(None, unparse(n))
+                sv.concat = (a, b)  # type: ignore[attr-defined]
+                return sv
             if isinstance(a, Const) and isinstance(b, Const):
                 try:
                     return Const(a.value + b.value)
@@ -1301,6 +1315,7 @@ class Interp:
                 nv = NumV(f"node.{attr}")
                 nv.node = b  # type: ignore[attr-defined]
                 nv.which = attr  # type: ignore[attr-defined]
+                nv.rel = (attr, 0)  # type: ignore[attr-defined]
                 return nv
             if attr == "children":
                 return Unknown("node.children")
@@ -1611,6 +1626,8 @@ class Interp:
                 alts = r[0] + ([r[1]] if r[1] is not None else [])
                 return mk_union(alts) if alts else Unknown("next of empty")
             if name in ("str",) and args:
+                if isinstance(args[0], (StrV, Tmpl)) or (isinstance(args[0], Const) and isinstance(args[0].value, str)):
+                    return args[0]
                 l = self.str_lits(args[0])
                 sv = StrV(l, "str()")
                 sv.str_of = args[0]  # type: ignore[attr-defined]
